@@ -38,3 +38,64 @@ def register(reg):
                  ('| (ngood == 0)', '| (ngood < 0)'),
                  ('ngood < self._good_npixels_threshold', 'ngood > self._good_npixels_threshold')],
     ))
+    register_masks(reg)
+
+
+def register_masks(reg):
+    """C11 "equal fill_value exactly on coverage_mask pixels" and "unaffected by the values stored
+    in masked or coverage-masked pixels": which pixels are excluded from the statistics (the union
+    of the input mask, the coverage mask and the invalid-value mask, pixel by pixel), and what
+    the full-size map holds on and off the coverage mask."""
+    img = ('arr', 2, 'bool')
+    for tag, mspec, cspec in (('mask+coverage', img, img), ('mask', img, ('const', None)),
+                              ('coverage', ('const', None), img),
+                              ('neither', ('const', None), ('const', None))):
+        rec = 'Background2D@' + tag
+        reg.record(rec, {'_mask': mspec, 'coverage_mask': cspec})
+        terms = ['mask[j, i]']
+        req = []
+        if mspec == img:
+            terms.append('old_mask_[j, i]')
+            req.append('self._mask.shape == mask.shape')
+        if cspec == img:
+            terms.append('self.coverage_mask[j, i]')
+            req.append('self.coverage_mask.shape == mask.shape')
+        reg.add(Contract(
+            target=f'{F}._combine_all_masks', props=['C11'], kind='method', tag=tag,
+            params={'self': rec, 'mask': img},
+            requires=req,
+            ensures=[('shape', 'result.shape == mask.shape'),
+                     ('union-of-input-coverage-and-invalid-masks',
+                      'forall(lambda j, i: iff(result[j, i], '
+                      + ' or '.join(terms).replace('old_mask_[j, i]', 'old_self._mask[j, i]')
+                      + '), (0, mask.shape[0]), (0, mask.shape[1]))')],
+            mutants=([('total_mask = np.logical_or(input_mask, mask)',
+                       'total_mask = np.logical_and(input_mask, mask)'),
+                      ('total_mask = np.logical_or(input_mask, mask)', 'total_mask = input_mask')]
+                     if tag != 'neither' else [])
+            ,
+            note='_combine_input_masks (no contract of its own) is executed inline',
+        ))
+    # the full-size map: fill_value exactly on the coverage mask, the interpolated value elsewhere
+    for tag, cspec in (('coverage', img), ('nocoverage', ('const', None))):
+        rec = 'Background2DImage@' + tag
+        reg.record(rec, {'coverage_mask': cspec, 'fill_value': 'real',
+                         'interpolator': ('callable', ('arr', 2, 'real')),
+                         '_interp_kwargs': ('const', {}), '_unit': ('const', None)})
+        cov = 'self.coverage_mask[j, i]'
+        reg.add(Contract(
+            target=f'{F}._calculate_image', props=['C11'], kind='method', tag=tag,
+            block=('data', 'data'),
+            params={'self': rec, 'data': ('arr', 2, 'real')},
+            requires=[],
+            ensures=[('fill-value-exactly-on-the-coverage-mask',
+                      'forall(lambda j, i: implies(%s, data[j, i] == self.fill_value), '
+                      '(0, data.shape[0]), (0, data.shape[1]))' % (cov if cspec == img else 'False')),
+                     ('mesh-input-untouched',
+                      'forall(lambda j, i: data_input[j, i] == old_data[j, i], '
+                      '(0, old_data.shape[0]), (0, old_data.shape[1]))')],
+            mutants=[('data[self.coverage_mask] = self.fill_value',
+                      'data[~self.coverage_mask] = self.fill_value'),
+                     ('data[self.coverage_mask] = self.fill_value',
+                      'data[self.coverage_mask] = 0.0')] if cspec == img else [],
+        ))
